@@ -28,10 +28,14 @@ type recorder struct {
 	evs      []Event
 	keepData bool
 	offs     map[string]int64
+	// detection of the reply head the proxy writes to the client (end of the switch-over)
+	replyAcc   []byte
+	replySeq   int
+	replyClean bool
 }
 
 func newRecorder(keep bool) *recorder {
-	return &recorder{t0: time.Now(), keepData: keep, offs: map[string]int64{}}
+	return &recorder{t0: time.Now(), keepData: keep, offs: map[string]int64{}, replySeq: -1}
 }
 
 func (r *recorder) log(who, op string, n int, data []byte) {
@@ -43,6 +47,13 @@ func (r *recorder) log(who, op string, n int, data []byte) {
 		ev.Data = append([]byte(nil), data[:n]...)
 	}
 	r.offs[key] += int64(n)
+	if who == "LC" && op == "W" && r.replySeq < 0 {
+		r.replyAcc = append(r.replyAcc, data[:n]...)
+		if i := hasCRLFCRLF(r.replyAcc); i >= 0 {
+			r.replySeq = ev.Seq
+			r.replyClean = i+4 == len(r.replyAcc)
+		}
+	}
 	r.evs = append(r.evs, ev)
 }
 
